@@ -63,6 +63,7 @@ type Monitors struct {
 	switchRaw     string
 	maintRaw      string
 	recoverySince map[string]time.Duration // when the present mark of a host appeared
+	deregAt       map[string]time.Duration // hosts removed from ha_nodes and not added back: when
 	recovery      map[string]bool
 	sessInc       map[int64]string
 	sessAlive     map[int64]bool
@@ -270,6 +271,16 @@ func (m *Monitors) onZKEvent(e *ZKEvent) {
 				m.maintRaw = e.Data
 			} else if e.Op == "delete" {
 				m.maintRaw = ""
+			}
+		case strings.HasPrefix(rel, "ha_nodes/") && !strings.Contains(strings.TrimPrefix(rel, "ha_nodes/"), "/"):
+			h := strings.TrimPrefix(rel, "ha_nodes/")
+			if m.deregAt == nil {
+				m.deregAt = map[string]time.Duration{}
+			}
+			if e.Op == "delete" {
+				m.deregAt[h] = e.T
+			} else if e.Op == "create" {
+				delete(m.deregAt, h)
 			}
 		case strings.HasPrefix(rel, "recovery/"):
 			h := strings.TrimPrefix(rel, "recovery/")
